@@ -274,9 +274,8 @@ pub fn specs(tier: Tier) -> Vec<GenSpec> {
 pub fn run(tier: Tier) -> i32 {
     let info = RunInfo::new("C02", tier);
     let specs = specs(tier);
-    let counter = std::sync::atomic::AtomicU64::new(0);
     let st = par_enumerate(&specs, |spec, net, st| {
-        let idx = counter.fetch_add(1, std::sync::atomic::Ordering::Relaxed);
+        let idx = net.hash_idx();
         for_net(spec, net, tier, idx, st);
         if idx % tier.pick(8, 2) == 0 {
             app_layer(net, idx, st);
